@@ -669,7 +669,16 @@ def rule_r7(ctx, cg) -> RuleResult:
             if hit:
                 kind, node = hit
                 ctx.touched(dotted, _relfile(ctx, dotted))
-                rr.bad(Finding("C05.R7", _relfile(ctx, dotted), dotted, unparse(node),
+                # the finding is identified by WHAT is repeated in this function, not by how the count is spelled
+                # (the count expression changes under every refactoring of the arithmetic)
+                if kind == "repeat" and isinstance(node, ast.BinOp):
+                    seq = node.left if isinstance(node.left, ast.Name) and node.left.id in strings else node.right
+                    construct = "{} * <count>".format(unparse(seq))
+                elif kind == "repeat":
+                    construct = "{} *= <count>".format(unparse(node.target))
+                else:
+                    construct = unparse(node)
+                rr.bad(Finding("C05.R7", _relfile(ctx, dotted), dotted, construct,
                                "{} sized by an integer taken from the input without an upper bound: `{{{{#expr:1e99999999}}}}` / "
                                "`{{{{padleft:x|999999999999|ab}}}}` do not return in bounded time/memory".format(
                                    "loop" if kind == "range" else "string repetition"), node.lineno))
